@@ -1,8 +1,45 @@
 """Property table: which theorems, script families, projection and monitors decide each property."""
+import os
+import sys
+
+sys.path.insert(0, os.path.dirname(__file__))
+import vlib
 
 NONE = ()
 
+
+def extra_result_table(tier, seed):
+    """C05: all 18 ActorResult shapes x every query method / conversion, real vs model (exhaustive)."""
+    bins = vlib.build_harness((), bins=("director", "result_enum"))
+    real = vlib.sh([bins["result_enum"]], check=True).stdout.splitlines()
+    model = vlib.sh([vlib.DRIVER, "--result-table"], check=True).stdout.splitlines()
+    extra_real = [l for l in real if l.startswith("retryable ") and l.split()[1] in ("downcast", "runtime", "mailbox_capacity")]
+    real_cmp = [l for l in real if l not in extra_real]
+    viol = []
+    for r, m in zip(real_cmp, model):
+        if r != m:
+            viol.append(dict(what="ActorResult accessor table differs", real=r, model=m))
+    if len(real_cmp) != len(model):
+        viol.append(dict(what="accessor table length differs", real=len(real_cmp), model=len(model)))
+    for l in extra_real:
+        if not l.endswith(" 0"):
+            viol.append(dict(what="non-timeout error reported retryable", real=l))
+    return dict(violations=viol, coverage=dict(accessor_rows=len(real_cmp), accessor_table_exhaustive=True,
+                                               accessor_sample=real_cmp[:2]))
+
+
 PROPS = {
+    "C04": dict(
+        props_file="Props/C04.v",
+        families=[("core", NONE, 150), ("fault", NONE, 150)],
+        projection="C04", monitors=["C04"],
+    ),
+    "C05": dict(
+        props_file="Props/C05.v",
+        families=[("core", NONE, 150), ("fault", NONE, 150)],
+        projection="C05", monitors=["C05"],
+        extra=[extra_result_table],
+    ),
     "C06": dict(
         props_file="Props/C06.v",
         families=[("core", NONE, 150), ("fault", NONE, 100), ("hostile", NONE, 50)],
